@@ -136,6 +136,18 @@ pub fn key_check(w: &mut World, node: usize, slot: usize) {
     let aad: &[u8] = if bk.has_aad() { b"kc" } else { b"" };
     match kind {
         Kind::Local => {
+            // the infallible constructor from 32 bytes gives the same key
+            if let Ok(arr) = <[u8; 32]>::try_from(&raw[..]) {
+                match be.local_from_array(arr) {
+                    Out::Ok(k2) => {
+                        if be.key_raw(Kind::Local, &k2).ok().as_deref() != Some(&raw[..]) {
+                            w.violate("C08", "from-array-differs", bk, &opk, &detail, "LocalKey::from([u8; 32]) does not hold the bytes it was given".into());
+                        }
+                    }
+                    Out::Panic(p) => w.violate("C04", "panic", bk, "local-from-array", &detail, p),
+                    Out::Err(e) => w.violate("C08", "from-array-differs", bk, &opk, &detail, format!("{e:?}")),
+                }
+            }
             rngsvc::begin(&RngSpec::Prng { seed: 0xC08 ^ slot as u64 });
             let t = be.seal(Purp::Local, &c, &msg, &Foot::Unit, aad, None, false);
             rngsvc::end();
